@@ -113,6 +113,8 @@ class C01(TreeSpec):
     tiers = {"quick": dict(runs=6000, builds=("py", "cy"), wall=75), "thorough": dict(runs=150000, builds=("py", "cy"), wall=1500)}
 
     def profile_for(self, r, i):
+        if i % 8 == 5:
+            return "bankrupt"  # leveraged histories: the liquidating update must leave a consistent tree too
         return "accounting" if i % 4 else "schedule"
 
 
@@ -790,7 +792,7 @@ class C11(Spec):
         plan["order_run"] = r.sample(range(plan["K"]), plan["K"])
         plan["seed"] = r.randrange(1 << 30)
         plan["ileave"] = r.randrange(1 << 30)
-        plan["hashsweep"] = i % 10 == 7
+        plan["hashsweep"] = i % 5 == 2
         if plan["cfg"].get("comm") is None and r.random() < 0.5:
             plan["cfg"]["comm"] = {"kind": "prop", "rate": 0.001}
         return plan
